@@ -11,23 +11,41 @@ Definition backend_scripts : list prog :=
     i_net_connections 0; i_net_connections 1; i_net_connections 2;
     i_sys FSysPrio; i_sys FSysIoprio; i_sys FSysAffinity; i_rlimit;
     f_name; f_status; f_uids; f_cpu_times; f_memory_info ].
-(* queries that consult the OS on every call *)
-Definition consulting_scripts : list prog := backend_scripts ++ [ i_cwd; i_exe; f_exe; f_ppid ].
-(* ... plus create_time() (memoised after its first success) and is_running() (answers False once gone) *)
-Definition linux_scripts : list prog := consulting_scripts ++ [ f_create_time; f_is_running ].
-(* as_dict() over every attribute ([Skip] = pid) *)
-Definition as_dict_all : prog := as_dict (consulting_scripts ++ [ f_create_time; Skip ]).
+(* queries that consult the OS on EVERY call: the above, cwd(), ppid(), and what exe() / create_time() do when their
+   memo is empty *)
+Definition consulting_scripts : list prog := backend_scripts ++ [ i_cwd; i_exe; exe_body; create_time_body; f_ppid ].
+(* front-end accessors that memoise their first answer: (flag of the memo, what they do when it is empty) *)
+Definition cached_table : list (nat * prog) :=
+  [ (F_EXE, exe_body); (F_CTIME, create_time_body); (F_EXITCODE, wait_body) ].
+(* every single-process query as the caller sees it *)
+Definition linux_scripts : list prog := consulting_scripts ++ [ f_exe; f_create_time; f_is_running ].
+(* as_dict() over every attribute ([Skip] = pid), and oneshot() blocks around all of them *)
+Definition attr_scripts : list prog := backend_scripts ++ [ i_cwd; f_exe; f_create_time; f_ppid; Skip ].
+Definition as_dict_all : prog := as_dict attr_scripts.
+Definition oneshot_all : prog := oneshot_block attr_scripts.
+Definition oneshot_all_c : prog := oneshot_block_c attr_scripts.
+Definition block_scripts : list prog :=
+  [ as_dict_all; oneshot_all; oneshot_all_c;
+    oneshot_block [f_cpu_times; f_name; f_ppid; f_status]; oneshot_block_c [f_cpu_times; f_name; f_ppid; f_status];
+    oneshot_block [f_uids; i_status_based; f_uids]; oneshot_block_c [i_memory_full_info; i_memory_maps; f_memory_info] ].
 (* calls that also query other Process objects *)
-Definition tree_scripts : list prog := [ f_parent; f_parents; f_children ].
+Definition iter_attrs : list prog := [ ppid_of Any FStatE; name_of Any FStatE FCmdlineE; status_of Any FStatE ].
+Definition tree_scripts : list prog :=
+  [ f_parent; f_parents; f_children; f_children_rec; f_iter iter_attrs;
+    f_iter [ppid_of Any FStatE; name_of Any FStatE FCmdlineE] ].
 
-Lemma methods_table : forallb (well_guarded opt_links) (as_dict_all :: linux_scripts) = true.
+Lemma methods_table : forallb (well_guarded opt_links) (block_scripts ++ linux_scripts) = true.
 Proof. vm_compute. reflexivity. Qed.
 Lemma sticky_table : forallb (gone_guarded opt_links) consulting_scripts = true.
 Proof. vm_compute. reflexivity. Qed.
 Lemma tree_table : forallb (tree_guarded opt_links) tree_scripts = true.
 Proof. vm_compute. reflexivity. Qed.
+Lemma wait_table : wait_guarded opt_links f_wait = true /\ wait_guarded opt_links wait_body = true.
+Proof. split; vm_compute; reflexivity. Qed.
+Lemma exempt_table : forallb (gone_value opt_links) [ f_is_running; wait_body ] = true.
+Proof. vm_compute. reflexivity. Qed.
 
-Theorem linux_methods_sound : forall w, base_ok opt_links w -> forall p, In p (as_dict_all :: linux_scripts) ->
+Theorem linux_methods_sound : forall w, base_ok opt_links w -> forall p, In p (block_scripts ++ linux_scripts) ->
   forall s, s_cache s = false -> allowed (fst (run w p s)) (gone w (snd (run w p s))).
 Proof.
   intros w Hb p Hp s Hc.
@@ -45,52 +63,83 @@ Proof.
   intros w Hb p Hp s Hc.
   exact (tree_guarded_sound_w w opt_links Hb p (proj1 (forallb_forall _ _) tree_table p Hp) s Hc).
 Qed.
+Theorem wait_sound : forall w, base_ok opt_links w ->
+  forall s, s_cache s = false -> allowed_wait (fst (run w f_wait s)) (gone w (snd (run w f_wait s))).
+Proof. intros w Hb s Hc. exact (wait_guarded_sound_w w opt_links Hb f_wait (proj1 wait_table) s Hc). Qed.
+
+(* the memoising accessors: with the memo set they answer without touching the OS (that is why a later call on a
+   vanished process may still answer); with the memo empty they are ordinary OS-consulting queries *)
+Theorem cached_accessors : forall f body, In (f, body) cached_table ->
+  (forall w s, flag_on s f = true -> run w (cached f body) s = (RVal, s)) /\
+  (forall w s, flag_on s f = false -> run w (cached f body) s = run w body s) /\
+  (f <> F_EXITCODE -> In body consulting_scripts).
+Proof.
+  intros f body Hin. repeat split.
+  - intros w s Hf. unfold run, cached. simpl. rewrite Hf. reflexivity.
+  - intros w s Hf. unfold run, cached. simpl. rewrite Hf. reflexivity.
+  - intros Hne. unfold cached_table in Hin. simpl in Hin.
+    destruct Hin as [E | [E | [E | []]]]; inversion E; subst;
+      try (exfalso; apply Hne; reflexivity);
+      unfold consulting_scripts; apply in_or_app; right; simpl; auto.
+Qed.
+(* is_running() and wait() are the two queries that answer (False / None) instead of raising once the process is gone *)
+Theorem gone_exempt : forall w, base_ok opt_links w -> forall p, In p [ f_is_running; wait_body ] ->
+  forall s, s_cache s = false -> gone w s = true -> fst (run w p s) = RVal.
+Proof.
+  intros w Hb p Hp s Hc Hg.
+  exact (gone_value_sound_w w opt_links Hb p (proj1 (forallb_forall _ _) exempt_table p Hp) s Hc Hg).
+Qed.
 
 (* ---- the harness's concrete worlds satisfy the hypothesis (so the theorems are not vacuous) *)
 Definition y0 : layout :=
   {| y_self := "4242"; y_parent := "1";
      y_fds := [("0", LAbsOther); ("3", LReg); ("4", LSock); ("5", LReg); ("6", LOtherLink)];
-     y_tasks := ["4242"; "4243"]; y_pids := ["1"; "77"; "4242"; "5001"; "5002"];
-     y_children := ["5001"; "5002"]; y_zombies := ["5002"]; y_race_fd := "5"; y_race_task := "4243";
+     y_tasks := ["4242"; "4243"]; y_pids := ["1"; "77"; "4242"; "5001"; "5002"; "5003"];
+     y_kids := [("4242", ["5001"; "5002"]); ("5001", ["5003"]); ("1", ["77"; "4242"])]; y_zombies := ["5002"];
+     y_race_fd := "5"; y_race_task := "4243";
      y_del_fd := "3"; y_maps_del := ["lib.so (deleted)"]; y_devs := ["pts0"; "tty1"] |}.
 
 Ltac ifs := repeat match goal with |- context [if ?c then _ else _] => destruct c end.
-(* all four base kinds are within opt_links, the class of the theorems *)
-Lemma base_ok_worlds_links : forall y kind v d ln gu, (kind <= 3)%nat -> base_ok opt_links (mk_world y kind v d ln gu).
+(* all four base kinds, every schedule of vanishing (the process, other processes) and refusals *)
+Lemma base_ok_worlds_links : forall y kind v d ov ln gu, (kind <= 3)%nat -> base_ok opt_links (mk_world y kind v d ov ln gu).
 Proof.
-  intros y kind v d ln gu Hk.
+  intros y kind v d ov ln gu Hk.
   assert (kind = 0 \/ kind = 1 \/ kind = 2 \/ kind = 3)%nat as [-> | [-> | [-> | ->]]] by lia;
     intros g [k x f] cur; unfold rwho; simpl;
     destruct x; simpl; try exact I; ifs; destruct f, k; simpl; ifs; reflexivity.
 Qed.
 
 Example cmdline_example :
-  let w := mk_world y0 2 (Some 1%nat) [0%nat] true false in
+  let w := mk_world y0 2 (Some 1%nat) [0%nat] [] true true in
   allowed (fst (run w i_cmdline st0)) (gone w (snd (run w i_cmdline st0))).
 Proof.
   intro w. apply linux_methods_sound; auto.
   - apply base_ok_worlds_links. lia.
-  - unfold linux_scripts, consulting_scripts, backend_scripts. simpl. auto 10.
+  - unfold linux_scripts, consulting_scripts, backend_scripts. apply in_or_app. right. simpl. auto 10.
 Qed.
+(* a child vanishing between the ppid_map snapshot and its Process() construction is simply left out *)
+Example child_vanishes_example :
+  fst (run (mk_world y0 0 None [] [("5001", 12%nat)] true true) f_children_rec st0) = RVal.
+Proof. vm_compute. reflexivity. Qed.
 
 (* ---- the defects that were repaired (commits 1c63e73, 4ee76b0, a4fac6f): the scripts of the code BEFORE
         the repairs ([legacy_*] in Model.v) break the property on single-refusal schedules *)
 (* kernel thread, the lexists probe of _readlink refused: exe() let a bare FileNotFoundError out *)
 Theorem legacy_exe_kthread_refuted :
-  fst (run (mk_world y0 1 None [1%nat] true false) legacy_f_exe st0) = RExc XFnf.
+  fst (run (mk_world y0 1 None [1%nat] [] true true) legacy_f_exe st0) = RExc XFnf.
 Proof. vm_compute. reflexivity. Qed.
 (* another pid's stat refused while ppid_map() walks the process list: bare PermissionError *)
 Theorem legacy_children_refuted :
-  fst (run (mk_world y0 0 None [5%nat] true false) legacy_f_children st0) = RExc XPerm.
+  fst (run (mk_world y0 0 None [5%nat] [] true true) legacy_f_children st0) = RExc XPerm.
 Proof. vm_compute. reflexivity. Qed.
 (* the identity re-check of is_running() refused: NoSuchProcess for a process that is there *)
 Theorem legacy_ppid_refuted :
-  let w := mk_world y0 0 None [0%nat] true false in
+  let w := mk_world y0 0 None [0%nat] [] true true in
   fst (run w legacy_f_ppid st0) = RExc (XNSP Self) /\ gone w (snd (run w legacy_f_ppid st0)) = false.
 Proof. vm_compute. split; reflexivity. Qed.
 (* ... and the same schedules on the current scripts are instances of the theorems *)
 Example repaired_schedules :
-  fst (run (mk_world y0 1 None [1%nat] true false) f_exe st0) = RExc (XAD Self) /\
-  fst (run (mk_world y0 0 None [5%nat] true false) f_children st0) = RVal /\
-  fst (run (mk_world y0 0 None [0%nat] true false) f_ppid st0) = RVal.
+  fst (run (mk_world y0 1 None [1%nat] [] true true) f_exe st0) = RExc (XAD Self) /\
+  fst (run (mk_world y0 0 None [5%nat] [] true true) f_children st0) = RVal /\
+  fst (run (mk_world y0 0 None [0%nat] [] true true) f_ppid st0) = RVal.
 Proof. vm_compute. repeat split; reflexivity. Qed.
